@@ -49,7 +49,13 @@ func unsup(format string, a ...interface{}) { panic(unsupported{fmt.Sprintf(form
 // state
 
 type deferred struct {
-	call *ast.CallExpr
+	call  *ast.CallExpr
+	bulk  *VSlice // deferred close of every element of a slice of channels
+	where string
+}
+
+type famRead struct {
+	arr, ln *Term
 }
 
 type State struct {
@@ -62,6 +68,7 @@ type State struct {
 	owned   map[string]string // stream ids whose read end this function holds -> description
 	procs   []*ast.GoStmt     // spawned, not yet run
 	readSet map[string]bool   // streams this function has received from (C04 horizon ghost)
+	readFam []famRead
 	dead    bool
 }
 
@@ -91,6 +98,7 @@ func (s *State) clone() *State {
 	for k, v := range s.readSet {
 		n.readSet[k] = v
 	}
+	n.readFam = append([]famRead(nil), s.readFam...)
 	n.pc = append([]*Term(nil), s.pc...)
 	n.defers = append([]deferred(nil), s.defers...)
 	n.procs = append([]*ast.GoStmt(nil), s.procs...)
@@ -209,11 +217,89 @@ func (s *State) getMem(key string, def *Term) *Term {
 	return def
 }
 
+var (
+	sortIntArr  = arraySort(SInt, SInt)
+	sortBoolArr = arraySort(SInt, SBool)
+)
+
+// In array mode (functions that handle a symbolic number of channels) the per-stream cursors live in three arrays
+// indexed by stream id instead of one scalar per stream.
 func (e *Engine) consumed(s *State, id *Term) *Term {
+	if e.arrayMode {
+		return mkSelect(s.mem["@consumed"], id)
+	}
 	return s.getMem("consumed:"+id.String(), mkInt(0))
 }
-func (e *Engine) sent(s *State, id *Term) *Term { return s.getMem("sent:"+id.String(), mkInt(0)) }
+func (e *Engine) sent(s *State, id *Term) *Term {
+	if e.arrayMode {
+		return mkSelect(s.mem["@sent"], id)
+	}
+	return s.getMem("sent:"+id.String(), mkInt(0))
+}
+func (e *Engine) setConsumed(s *State, id, v *Term) {
+	e.idTerms[id.String()] = id
+	if e.arrayMode {
+		s.mem["@consumed"] = mkStore(s.mem["@consumed"], id, v)
+		return
+	}
+	s.mem["consumed:"+id.String()] = v
+}
+func (e *Engine) setSent(s *State, id, v *Term) {
+	e.idTerms[id.String()] = id
+	if e.arrayMode {
+		s.mem["@sent"] = mkStore(s.mem["@sent"], id, v)
+		return
+	}
+	s.mem["sent:"+id.String()] = v
+}
+func (e *Engine) setClosed(s *State, id, v *Term) {
+	if e.arrayMode {
+		s.mem["@closed"] = mkStore(s.mem["@closed"], id, v)
+		return
+	}
+	s.mem["closed:"+id.String()] = v
+}
+
+// fresh cursor arrays (array mode): used for havoc; every stream satisfies 0 <= consumed <= len, sent >= 0
+func (e *Engine) freshCursorArray(s *State, key string) {
+	switch key {
+	case "@closed":
+		s.mem[key] = e.fresh("closedA", sortBoolArr)
+	case "@consumed":
+		a := e.fresh("consumedA", sortIntArr)
+		old := s.mem[key]
+		s.mem[key] = a
+		e.nfresh++
+		b := mkVar(fmt.Sprintf("s$%d", e.nfresh), SInt)
+		body := mkAnd(mkCmp("<=", mkInt(0), mkSelect(a, b)), mkCmp("<=", mkSelect(a, b), mkApp("slen", SInt, b)))
+		if old != nil {
+			body = mkAnd(body, mkCmp("<=", mkSelect(old, b), mkSelect(a, b)))
+		}
+		s.assume(mkForall([]*Term{b}, body, [][]*Term{{mkSelect(a, b)}}))
+	case "@sent":
+		a := e.fresh("sentA", sortIntArr)
+		old := s.mem[key]
+		s.mem[key] = a
+		e.nfresh++
+		b := mkVar(fmt.Sprintf("s$%d", e.nfresh), SInt)
+		body := mkCmp("<=", mkInt(0), mkSelect(a, b))
+		if old != nil {
+			body = mkAnd(body, mkCmp("<=", mkSelect(old, b), mkSelect(a, b)))
+		}
+		s.assume(mkForall([]*Term{b}, body, [][]*Term{{mkSelect(a, b)}}))
+	case "@nextid":
+		old := s.mem[key]
+		n := e.fresh("nextid", SInt)
+		s.mem[key] = n
+		if old != nil {
+			s.assume(mkCmp("<=", old, n))
+		}
+	}
+}
 func (e *Engine) closed(s *State, id *Term) *Term {
+	if e.arrayMode {
+		return mkSelect(s.mem["@closed"], id)
+	}
 	// unknown unless set: streams made here are set to false at make, results of callees are constrained by their ensures
 	return s.getMem("closed:"+id.String(), mkApp("closed0", SBool, id))
 }
